@@ -15,6 +15,7 @@
 //                     further lookups that are cancelled at once (walks the id counter once around)
 #include "hist/hist.h"
 #include "common.h"
+#include "probe.h"
 #include <tbox/event/common_loop.h>
 #include <tbox/event/timer_event.h>
 #include <tbox/event/fd_event.h>
@@ -40,12 +41,16 @@ extern "C" int epoll_wait(int epfd, struct epoll_event *ev, int maxev, int) { re
 extern "C" int select(int nfds, fd_set *r, fd_set *w, fd_set *e, struct timeval *) { struct timeval z = {0, 0}; return (int)syscall(SYS_select, nfds, r, w, e, &z); }
 
 using network::DnsRequest;
-enum K { REQ, CANCEL, REPLY, TICK, SETSRV, BURST };
+enum K { REQ, CANCEL, REPLY, TICK, SETSRV, BURST, SENDFAIL };
 // TRUNCATED / PTR_LOOP: replies with the lookup's id that cannot be decoded - they must be ignored AND leave the lookup intact
 // (it still completes with the next acceptable reply / the all-failed status / the timeout). RX_EMPTY / RX_FAIL: socket lane only.
-enum RK { OK, SERVFAIL, NXDOMAIN, FORMERR, QUERY, UNKNOWN_ID, OK_WRONG_QUESTION, TRUNCATED, PTR_LOOP, NRK, RX_EMPTY = NRK, RX_FAIL };
-static const char *rkN[] = {"ok", "servfail", "nxdomain", "formerr", "query-not-reply", "unknown-id", "ok-wrong-question", "ok-cut-inside-the-answer", "ok-answer-name-is-a-pointer-loop",
-                            "zero-length-datagram", "recvfrom-fails"};
+// CNAME_A_CUT: two complete records (CNAME z.y, A 10.x.x.8) and then a cut: nothing of it may ever show up in a result.
+// OVERSIZE (socket lanes): 5000-byte datagram whose answer section goes on behind byte 4096 = behind what the kernel stores in
+// UdpSocket's buffer; judged as its stored prefix, which is undecodable.
+enum RK { OK, SERVFAIL, NXDOMAIN, FORMERR, QUERY, UNKNOWN_ID, OK_WRONG_QUESTION, TRUNCATED, PTR_LOOP, CNAME_A_CUT, NRK, OVERSIZE = NRK, RX_EMPTY, RX_FAIL };
+static const char *rkN[] = {"ok", "servfail", "nxdomain", "formerr", "query-not-reply", "unknown-id", "ok-wrong-question", "ok-cut-inside-the-answer", "ok-answer-name-is-a-pointer-loop", "ok-one-CNAME+A-then-cut",
+                            "5000-bytes-answer-continues-behind-byte-4096", "zero-length-datagram", "recvfrom-fails"};
+static inline bool undecodable(int r) { return r == TRUNCATED || r == PTR_LOOP || r == CNAME_A_CUT || r == OVERSIZE; }
 struct Op { int k, i, s, r; };    // i = lookup index / domain / server count, s = server, r = reply kind / callback flavour
 static const char *kDomains[] = {"a.b", "c.d"};
 static int kServers = 2, kMaxLookups = 2;   // argv
@@ -54,17 +59,35 @@ static const int kTimeoutTicks = 5, kMaxServers = 3;
 static Bytes make_reply(uint16_t id, int dom, int look, int server, int kind) {
   unsigned flags = 0x8180; int an = 0; int qdom = dom;
   switch (kind) { case OK: an = 1; break; case SERVFAIL: flags |= 2; break; case NXDOMAIN: flags |= 3; break; case FORMERR: flags |= 1; break;
-    case QUERY: flags = 0x0100; break; case UNKNOWN_ID: id = 0x7777; an = 1; break; case OK_WRONG_QUESTION: an = 1; qdom = 1 - dom; break; case TRUNCATED: case PTR_LOOP: an = 1; break; }
+    case QUERY: flags = 0x0100; break; case UNKNOWN_ID: id = 0x7777; an = 1; break; case OK_WRONG_QUESTION: an = 1; qdom = 1 - dom; break; case TRUNCATED: case PTR_LOOP: an = 1; break; case CNAME_A_CUT: case OVERSIZE: an = 3; break; }
   Bytes b = header(id, flags, 1, an, 0, 0); put_name(b, kDomains[qdom]); put16(b, 1); put16(b, 1);
+  if (kind == CNAME_A_CUT) { put16(b, 0xc00c); put16(b, 5); put16(b, 1); put32(b, 77); put16(b, 5); put_name(b, "z.y");
+    put16(b, 0xc00c); put16(b, 1); put16(b, 1); put32(b, 78); put16(b, 4); b.insert(b.end(), {10, (uint8_t)(look + 1), (uint8_t)(server + 1), 8});
+    put16(b, 0xc00c); put16(b, 1); put16(b, 1); put32(b, 79); put16(b, 4); b.insert(b.end(), {10, 9}); return b; }
+  if (kind == OVERSIZE) { put16(b, 0xc00c); put16(b, 1); put16(b, 1); put32(b, 78); put16(b, 4); b.insert(b.end(), {10, (uint8_t)(look + 1), (uint8_t)(server + 1), 8});
+    put16(b, 0xc00c); put16(b, 16); put16(b, 1); put32(b, 78); size_t fill = kRecvBuf - (b.size() + 2); put16(b, fill); b.insert(b.end(), fill, 0xee);      // ends with byte 4096
+    put16(b, 0xc00c); put16(b, 1); put16(b, 1); put32(b, 79); put16(b, 4); b.insert(b.end(), {10, 9, 9, 9}); b.resize(5000, 0); return b; }
   if (an) { put16(b, kind == PTR_LOOP ? (0xc000 | (unsigned)b.size()) : 0xc00c); put16(b, 1); put16(b, 1); put32(b, 60); put16(b, 4); b.insert(b.end(), {10, (uint8_t)(look + 1), (uint8_t)(server + 1), (uint8_t)(kind == OK ? 7 : 9)}); }
   if (kind == TRUNCATED) b.resize(b.size() - 3);
   return b;
 }
 
 struct Look { uint16_t id = 0; int dom = 0; int state = 0 /*0 pending 1 done 2 cancelled 3 refused (no servers configured)*/; int calls = 0; int status = -1; std::vector<Addr> addrs; bool failed[kMaxServers] = {false, false, false}; int nfail = 0; int age = 0;
-  int flavour = 0 /*1: its callback issues one more lookup; 2: its callback cancels another lookup that is still pending*/; int nq = 0 /*servers queried*/; bool cancelled_in_cb = false; };
+  int flavour = 0 /*1: its callback issues one more lookup; 2: its callback cancels another lookup that is still pending*/; int nq = 0 /*servers queried*/; bool cancelled_in_cb = false;
+  std::vector<std::string> names; /*cname_vec of the last result*/ int seen = 0 /*model only: class of the last ignored datagram it received while pending: 1 non-reply 2 undecodable*/; };
 static long g_dup_counted = 0, g_wrongq_accepted = 0, g_wrongq_ignored = 0, g_timeouts = 0, g_allfail = 0, g_success = 0, g_ignored_ok = 0;
+static long g_silent = 0;
 static long g_undecodable = 0, g_not_listening = 0, g_cb_cancels = 0, g_cb_followups = 0, g_refused = 0, g_srvchg_completed = 0, g_srvchg_waiting = 0, g_rx_nothing = 0;
+
+// key parts that iterate private containers, SFINAE-guarded like VF_GET (engine/probe.h)
+VF_PROBE(req_id_alloc_) VF_PROBE(dns_ip_vec_) VF_PROBE(value_number_)
+template <class D> static auto key_requests(D &d, const std::function<int(uint16_t)> &idx_of, int) -> decltype((void)d.requests_.begin()->second.response_count, std::string()) {
+  std::string c; for (auto &kv : d.requests_) c += std::to_string(idx_of(kv.first)) + "." + std::to_string(kv.second.response_count) + ","; return c; }
+template <class D> static std::string key_requests(D &, const std::function<int(uint16_t)> &, long) { vf_note_missing("requests_/response_count"); return "?"; }
+template <class D> static auto key_wheel(D &d, const std::function<int(uint16_t)> &idx_of, int) -> decltype((void)d.timeout_monitor_.curr_item_->items.size(), (void)d.timeout_monitor_.curr_item_->next, (void)d.timeout_monitor_.sp_timer_->isEnabled(), std::string()) {
+  std::string c; auto *it = d.timeout_monitor_.curr_item_; for (int k = 0; k < kTimeoutTicks && it; k++, it = it->next) { for (auto v : it->items) c += std::to_string(idx_of(v)); c += "/"; }
+  return c + "|vn" + std::to_string(VF_GET(value_number_, d.timeout_monitor_, 0u)) + "|t" + std::to_string((int)d.timeout_monitor_.sp_timer_->isEnabled()); }
+template <class D> static std::string key_wheel(D &, const std::function<int(uint16_t)> &, long) { vf_note_missing("timeout_monitor_ wheel"); return "?"; }
 
 int main(int argc, char **argv) {
   std::string engine = argc > 1 ? argv[1] : "epoll"; size_t depth = argc > 2 ? atoi(argv[2]) : 6;
@@ -78,29 +101,33 @@ int main(int argc, char **argv) {
   ex.deadline_s = hx::deadline_from_env(600);
   if (getenv("C15_DEADLINE_MONO")) ex.deadline_s = atof(getenv("C15_DEADLINE_MONO"));   // absolute CLOCK_MONOTONIC seconds (set by check.py)
   ex.show = [](const Op &o) { char b[96];
-    switch (o.k) { case REQ: snprintf(b, sizeof b, o.r == 1 ? "request(%s,callback-issues-a-followup-lookup)" : o.r == 2 ? "request(%s,callback-cancels-another-pending-lookup)" : "request(%s)", kDomains[o.i]); break; case CANCEL: snprintf(b, sizeof b, "cancel(#%d)", o.i); break;
-      case REPLY: if (o.r == UNKNOWN_ID) snprintf(b, sizeof b, "reply(unknown-id,from-s%d)", o.s); else if (o.r >= NRK) snprintf(b, sizeof b, "socket-readable(%s)", rkN[o.r]); else snprintf(b, sizeof b, "reply(#%d,from-s%d,%s)", o.i, o.s, rkN[o.r]); break;
+    switch (o.k) { case REQ: snprintf(b, sizeof b, o.r == 1 ? "request(%s,callback-issues-a-followup-lookup)" : o.r == 2 ? "request(%s,callback-cancels-another-pending-lookup)" : o.r == 3 ? "request(%s,empty-callback)" : "request(%s)", kDomains[o.i]); break; case CANCEL: snprintf(b, sizeof b, "cancel(#%d)", o.i); break;
+      case REPLY: if (o.r == UNKNOWN_ID) snprintf(b, sizeof b, "reply(unknown-id,from-s%d)", o.s); else if (o.r >= RX_EMPTY) snprintf(b, sizeof b, "socket-readable(%s)", rkN[o.r]); else snprintf(b, sizeof b, "reply(#%d,from-s%d,%s)", o.i, o.s, rkN[o.r]); break;
       case SETSRV: snprintf(b, sizeof b, "setServers(%d)", o.i); break;
+      case SENDFAIL: snprintf(b, sizeof b, "sendFails(server-mask=%d)", o.i); break;
       case BURST: snprintf(b, sizeof b, "burst(65536 x {request(c.d); cancel(it)})"); break;
       default: snprintf(b, sizeof b, "tick(+%ds)", o.i > 0 ? o.i : 1); }
     return std::string(b); };
   ex.menu = [&](const std::vector<Op> &h) {
-    std::vector<Op> m; int issued = 0, cur = kServers; std::vector<int> nq;     // nq[i] = servers that lookup #i queried
-    for (auto &o : h) { if (o.k == SETSRV) cur = o.i; if (o.k == REQ) { issued++; nq.push_back(cur); } }
+    std::vector<Op> m; int issued = 0, cur = kServers, txmask = 0; std::vector<int> nq;     // nq[i] = servers that lookup #i queried
+    for (auto &o : h) { if (o.k == SETSRV) cur = o.i; if (o.k == SENDFAIL) txmask = o.i; if (o.k == REQ) { issued++; nq.push_back(cur); } }
     if (issued < kMaxLookups) for (int d = 0; d < 2; d++) m.push_back({REQ, d, 0, 0});
-    if (lane && issued < kMaxLookups) { m.push_back({REQ, 0, 0, 1}); m.push_back({REQ, 0, 0, 2}); }
+    if (lane && issued < kMaxLookups) { m.push_back({REQ, 0, 0, 1}); m.push_back({REQ, 0, 0, 2}); m.push_back({REQ, 0, 0, 3}); }
     m.push_back({TICK, 1, 0, 0});
     if (lane || cfg_lane) m.push_back({TICK, kTimeoutTicks, 0, 0});
     if (cfg_lane) for (int k = 0; k <= kServers; k++) if (k != cur) m.push_back({SETSRV, k, 0, 0});
+    if (cfg_lane) for (int mk : {0, 1, (1 << kServers) - 1}) if (mk != txmask && !(mk == 1 && kServers == 1)) m.push_back({SENDFAIL, mk, 0, 0});
     for (int i = 0; i < issued; i++) { m.push_back({CANCEL, i, 0, 0});
       // replies come from servers that were queried (whether a reply from an address never queried is acceptable is not defined by the statement)
-      for (int s = 0; s < nq[i]; s++) for (int r = 0; r < NRK; r++) if (r != UNKNOWN_ID) m.push_back({REPLY, i, s, r}); }
+      for (int s = 0; s < nq[i]; s++) for (int r = 0; r < NRK; r++) if (r != UNKNOWN_ID) m.push_back({REPLY, i, s, r});
+      if (via_socket) for (int s = 0; s < nq[i]; s++) m.push_back({REPLY, i, s, OVERSIZE}); }
     m.push_back({REPLY, 0, 0, UNKNOWN_ID});
     if (idwrap) { bool had = false; for (auto &o : h) had = had || o.k == BURST; if (!had) m.push_back({BURST, 0, 0, 0}); }
     if (via_socket) { m.push_back({REPLY, 0, 0, RX_EMPTY}); m.push_back({REPLY, 0, 0, RX_FAIL}); }
     return m; };
   ex.run = [&](const std::vector<Op> &h, std::string &viol) {
-    Virt virt; g_mono_ms = 5000000; g_sent.clear(); g_keep_sent = true;
+    Virt virt; g_mono_ms = 5000000; g_sent.clear(); g_keep_sent = true; g_tx_fail_mask = 0;
+    int nobody = 0;     // model only: class of the last datagram that was for no lookup at all while one was pending (1 unknown id, 2 readable event without datagram)
     event::Loop *loop = event::Loop::New(engine);
     static const char *ips[kMaxServers] = {"10.0.0.1", "10.0.0.2", "10.0.0.3"};
     DnsRequest::IPAddressVec srv; std::vector<network::SockAddr> from;
@@ -120,10 +147,13 @@ int main(int argc, char **argv) {
       for (size_t j = sent_before; j < g_sent.size(); j++) { const Bytes &q = g_sent[j].data; Bytes exp = header(l.id, 0x0100, 1, 0, 0, 0); put_name(exp, kDomains[l.dom]); put16(exp, 1); put16(exp, 1);
         if (q != exp || g_sent[j].port != 53 || g_sent[j].ip != (uint32_t)srv[j - sent_before]) fail("dns-lookup-query-datagram-malformed " + hex(q)); }
     };
+    // a lookup requested with an EMPTY callback completes silently; its completion is observed through the public isRunning()
+    auto sync_silent = [&]() { for (auto &l : L) if (l.flavour == 3 && l.state == 0 && l.calls == 0 && !dns->isRunning(l.id)) { l.calls = 1; l.status = -3; } };
     std::function<DnsRequest::Callback(size_t)> mkcb = [&](size_t idx) -> DnsRequest::Callback {
       return [&, idx](const DnsRequest::Result &r) {
-        Look &x = L[idx]; x.calls++; x.status = (int)r.status; x.addrs.clear();
+        Look &x = L[idx]; x.calls++; x.status = (int)r.status; x.addrs.clear(); x.names.clear();
         for (auto &a : r.a_vec) { uint32_t v = a.ip; Addr ad; memcpy(ad.data(), &v, 4); x.addrs.push_back(ad); }
+        for (auto &cn : r.cname_vec) x.names.push_back(cn.cname.toString());
         if (x.state == 2) fail("dns-lookup-callback-invoked-after-cancel");
         if (x.state == 3) fail("dns-lookup-callback-invoked-for-a-refused-request");
         if (x.calls != 1) return;
@@ -131,20 +161,22 @@ int main(int argc, char **argv) {
           Look n; n.dom = 1; L.push_back(n); size_t j = L.size() - 1; size_t before = g_sent.size(); g_cb_followups++;
           uint16_t id = dns->request(network::DomainName(kDomains[1]), mkcb(j)); L[j].id = id; judge_request(j, before);
         }
-        if (x.flavour == 2) {                       // cancels the first OTHER lookup that is still pending (model's view); never itself
+        if (x.flavour == 2) { sync_silent();        // cancels the first OTHER lookup that is still pending (model's view); never itself
           for (size_t j = 0; j < L.size(); j++) { Look &v = L[j]; if (j == idx || v.state != 0 || v.calls != 0) continue;
             g_cb_cancels++; if (!dns->cancel(v.id)) fail("dns-lookup-cancel-returned-false-for-pending-lookup lookup#" + std::to_string(j) + " (cancel from inside the callback of lookup#" + std::to_string(idx) + ")");
             v.state = 2; v.cancelled_in_cb = true; break; }
         }
       };
     };
-    auto deliver = [&](const Bytes &dg, int s, int kind) {
-      if (!via_socket) { dns->feed(dg.data(), dg.size(), from[s]); return; }
+    auto deliver = [&](const Bytes &dg, int s, int kind) -> bool {
+      if (!via_socket) { dns->feed(dg.data(), dg.size(), from[s]); return true; }
       // a loop reports readiness only for an enabled event: with the read event disabled nothing is received
-      if (!dns->udp_.sp_socket_ev_->isEnabled()) { g_not_listening++; return; }
+      if (!dns->udp_.sp_socket_ev_->isEnabled()) { g_not_listening++; return false; }
       socket_event(dns, kind == RX_EMPTY ? RX_ZERO : kind == RX_FAIL ? RX_ERROR : RX_DATAGRAM, dg.data(), dg.size(), (uint32_t)srv[s]);
+      return true;
     };
-    for (auto &o : h) {
+    size_t opno = 0;
+    for (auto &o : h) { opno++;
       // expected effect of this op on the callback counters, computed from the model BEFORE the op runs
       std::vector<int> want_calls; for (auto &l : L) want_calls.push_back(l.calls);
       std::vector<int> calls_before = want_calls;
@@ -152,7 +184,7 @@ int main(int argc, char **argv) {
       switch (o.k) {
         case REQ: {
           size_t before = g_sent.size(); Look l; l.dom = o.i; l.flavour = o.r; L.push_back(l); size_t idx = L.size() - 1;
-          uint16_t id = dns->request(network::DomainName(kDomains[o.i]), mkcb(idx));
+          uint16_t id = dns->request(network::DomainName(kDomains[o.i]), o.r == 3 ? DnsRequest::Callback() : mkcb(idx));
           L[idx].id = id; want_calls.push_back(0); want_status.push_back(-2);
           judge_request(idx, before);
         } break;
@@ -164,12 +196,14 @@ int main(int argc, char **argv) {
           for (long n = 0; n < 65536; n++) { uint16_t id = dns->request(network::DomainName(kDomains[1]), [&fail](const DnsRequest::Result &) { fail("dns-lookup-callback-invoked-after-cancel (burst lookup)"); }); if (!dns->cancel(id)) bad++; }
           g_keep_sent = true; if (bad) fail("dns-lookup-cancel-returned-false-for-pending-lookup (" + std::to_string(bad) + " lookups of the burst)");
         } break;
+        case SENDFAIL: g_tx_fail_mask = (unsigned)o.i; break;      // model unchanged: a lookup whose queries could not be sent is still pending and ends by reply or timeout
         case SETSRV: { DnsRequest::IPAddressVec v(srv.begin(), srv.begin() + o.i); dns->setDnsIPAddresses(v); cur = o.i; } break;
-        case REPLY: { bool unk = o.r == UNKNOWN_ID || o.r >= NRK; int i = unk ? -1 : o.i;
+        case REPLY: { bool unk = o.r == UNKNOWN_ID || o.r >= RX_EMPTY; int i = unk ? -1 : o.i;
+          static const int errs[3] = {EAGAIN, EINTR, ECONNREFUSED}; g_rx_errno = errs[opno % 3];
           Bytes dg = unk ? make_reply(0, 0, 0, o.s, UNKNOWN_ID) : make_reply(L[i].id, L[i].dom, i, o.s, o.r);
-          if (o.r >= NRK) g_rx_nothing++;
-          if (!unk && (o.r == TRUNCATED || o.r == PTR_LOOP)) g_undecodable++;
-          if (!unk && o.r != QUERY && o.r != TRUNCATED && o.r != PTR_LOOP && L[i].state == 0) { Look &l = L[i];
+          if (o.r >= RX_EMPTY) g_rx_nothing++;
+          if (!unk && undecodable(o.r)) g_undecodable++;
+          if (!unk && o.r != QUERY && !undecodable(o.r) && L[i].state == 0) { Look &l = L[i];
             if (o.r == OK) { want_calls[i]++; want_status[i] = 0; }
             else if (o.r == NXDOMAIN) { want_calls[i]++; want_status[i] = (int)DnsRequest::Result::Status::kDomainError; }
             else if (o.r == FORMERR) { want_calls[i]++; want_status[i] = (int)DnsRequest::Result::Status::kFail; }
@@ -179,7 +213,10 @@ int main(int argc, char **argv) {
               else if (all) { want_calls[i]++; want_status[i] = (int)DnsRequest::Result::Status::kAllDnsFail; }
               else if (l.nfail >= l.nq) { either = i; want_status[i] = (int)DnsRequest::Result::Status::kAllDnsFail; } }
           }
-          deliver(dg, o.s, o.r);
+          bool got = deliver(dg, o.s, o.r); sync_silent();
+          if (got) { bool pend = false; for (auto &l : L) pend = pend || l.state == 0;
+            if (unk && pend) nobody = o.r == UNKNOWN_ID ? 1 : 2;
+            if (!unk && L[i].state == 0 && (o.r == QUERY || undecodable(o.r))) L[i].seen = o.r == QUERY ? 1 : 2; }
           if (either >= 0) { Look &e = L[either]; bool chg = o.r == SERVFAIL && cur != e.nq;
             if (e.calls == want_calls[either] + 1) { want_calls[either]++; if (chg) g_srvchg_completed++; else if (o.r == SERVFAIL) g_dup_counted++; else g_wrongq_accepted++; } else { want_status[either] = -2; if (chg) g_srvchg_waiting++; if (o.r == OK_WRONG_QUESTION) g_wrongq_ignored++; } }
         } break;
@@ -187,10 +224,11 @@ int main(int argc, char **argv) {
           for (int tk = 0; tk < (o.i > 0 ? o.i : 1); tk++) {
             while (want_calls.size() < L.size()) { want_calls.push_back(0); want_status.push_back(-2); }     // lookups born inside a callback of an earlier tick
             for (size_t i = 0; i < L.size(); i++) if (L[i].state == 0 && L[i].calls == want_calls[i]) { L[i].age++; if (L[i].age == kTimeoutTicks) { want_calls[i]++; want_status[i] = (int)DnsRequest::Result::Status::kTimeout; } }
-            g_mono_ms += 1000; loop->runNext([] {}); loop->runLoop(event::Loop::Mode::kOnce); }
+            g_mono_ms += 1000; loop->runNext([] {}); loop->runLoop(event::Loop::Mode::kOnce); sync_silent(); }
         } break;
       }
       if (!viol.empty()) break;
+      sync_silent();
       while (want_calls.size() < L.size()) { want_calls.push_back(0); want_status.push_back(-2); }
       while (calls_before.size() < L.size()) calls_before.push_back(0);
       // a lookup cancelled from inside another lookup's callback during this op is never invoked: not before (it was pending and
@@ -202,32 +240,39 @@ int main(int argc, char **argv) {
         if (l.calls != want_calls[i]) {
           const char *what = l.calls > want_calls[i] ? (l.state == 2 ? "dns-lookup-callback-invoked-after-cancel" : l.state == 1 ? "dns-lookup-callback-invoked-more-than-once" : o.k == TICK ? "dns-lookup-timeout-reported-early" : "dns-lookup-callback-invoked-for-a-datagram-that-must-be-ignored")
                                                        : (o.k == TICK ? "dns-lookup-timeout-not-reported-after-5-ticks" : o.r == SERVFAIL ? "dns-lookup-not-completed-although-all-servers-failed" : "dns-lookup-callback-missing-for-acceptable-reply");
-          fail(std::string(what) + " lookup#" + std::to_string(i) + " calls=" + std::to_string(l.calls) + " expected=" + std::to_string(want_calls[i])); break; }
-        if (want_status[i] != -2 && l.state == 0) {   // completed by this op
+          fail(std::string(what) + " lookup#" + std::to_string(i) + " calls=" + std::to_string(l.calls) + " expected=" + std::to_string(want_calls[i]) + (l.flavour == 3 ? " (lookup with an empty callback: 'calls' is its completion as seen through isRunning)" : "")); break; }
+        if (want_status[i] != -2 && l.state == 0 && l.flavour == 3) { l.state = 1; l.calls = 0; g_silent++; }     // completed silently, as the model says; nothing to compare
+        else if (want_status[i] != -2 && l.state == 0) {   // completed by this op
           if (l.status != want_status[i]) { fail("dns-lookup-completed-with-wrong-status lookup#" + std::to_string(i) + " status=" + std::to_string(l.status) + " expected=" + std::to_string(want_status[i])); break; }
-          if (l.status == 0) { Addr exp{{10, (uint8_t)(i + 1), (uint8_t)(o.s + 1), (uint8_t)(o.r == OK ? 7 : 9)}}; if (l.addrs.size() != 1 || l.addrs[0] != exp) { fail("dns-lookup-success-does-not-carry-the-addresses-of-the-accepted-reply lookup#" + std::to_string(i)); break; } g_success++; }
-          else if (!l.addrs.empty()) { fail("dns-lookup-error-status-with-addresses"); break; }
+          if (l.status == 0) { Addr exp{{10, (uint8_t)(i + 1), (uint8_t)(o.s + 1), (uint8_t)(o.r == OK ? 7 : 9)}}; if (l.addrs.size() != 1 || l.addrs[0] != exp) { fail("dns-lookup-success-does-not-carry-the-addresses-of-the-accepted-reply lookup#" + std::to_string(i)); break; }
+            if (!l.names.empty()) { fail("dns-lookup-success-carries-names-that-are-not-in-the-accepted-reply lookup#" + std::to_string(i) + " " + l.names[0]); break; } g_success++; }
+          else if (!l.addrs.empty() || !l.names.empty()) { fail("dns-lookup-error-status-with-addresses"); break; }
           if (l.status == (int)DnsRequest::Result::Status::kTimeout) g_timeouts++; if (l.status == (int)DnsRequest::Result::Status::kAllDnsFail) g_allfail++;
           l.state = 1;
         }
         if (dns->isRunning(l.id) != (l.state == 0)) { fail(std::string("dns-lookup-isRunning-") + (l.state == 0 ? "false-for-pending-lookup" : l.state == 1 ? "true-after-completion" : l.state == 3 ? "true-for-refused-request" : "true-after-cancel") + " lookup#" + std::to_string(i) + " after " + ex.show(o)); break; }
       }
       if (!viol.empty()) break;
-      if (dns->requests_.size() > L.size()) { fail("dns-lookup-table-holds-unknown-entries"); break; }
       // while a lookup is pending its replies must be receivable: the socket's read event is registered with the loop
       { bool pending = false; for (auto &l : L) pending = pending || l.state == 0;
         if (pending && !dns->udp_.sp_socket_ev_->isEnabled()) { fail("dns-lookup-socket-not-listening-while-a-lookup-is-pending after " + ex.show(o)); break; } }
     }
-    // canonical state: implementation (lookup table, timeout wheel, timer, socket event, id counter, server list) + model
-    auto idx_of = [&](uint16_t id) { for (size_t i = 0; i < L.size(); i++) if (L[i].id == id && L[i].state != 3) return (int)i; return -1; };
-    std::string c = "R:"; for (auto &kv : dns->requests_) c += std::to_string(idx_of(kv.first)) + "." + std::to_string(kv.second.response_count) + ",";
-    c += "|W:"; { auto *it = dns->timeout_monitor_.curr_item_; for (int k = 0; k < kTimeoutTicks && it; k++, it = it->next) { for (auto v : it->items) c += std::to_string(idx_of(v)); c += "/"; } }
-    c += "|vn" + std::to_string(dns->timeout_monitor_.value_number_) + "|t" + std::to_string((int)dns->timeout_monitor_.sp_timer_->isEnabled()) + "|u" + std::to_string((int)dns->udp_.sp_socket_ev_->isEnabled()) + "|id" + std::to_string(dns->req_id_alloc_);
-    c += "|k" + std::to_string(dns->dns_ip_vec_.size()) + "/" + std::to_string(cur);
-    c += "|M:"; for (auto &l : L) { c += std::to_string(l.state) + std::to_string(l.calls) + (l.state == 0 ? std::to_string((int)l.failed[0]) + std::to_string((int)l.failed[1]) + std::to_string((int)l.failed[2]) + std::to_string(std::min(l.nfail, l.nq)) + std::to_string(l.age) + "q" + std::to_string(l.nq) : std::string("")) + "d" + std::to_string(l.dom) + (l.flavour && l.calls == 0 ? (l.flavour == 1 ? "F" : "X") : "") + ","; }    // a pending re-entrant-callback obligation is part of the state
+    // canonical state: implementation (lookup table, timeout wheel, timer, socket event, id counter, server list; read through
+    // probes: a renamed member degrades the key - then the last ops are appended - instead of breaking the build) + model
+    std::function<int(uint16_t)> idx_of = [&](uint16_t id) { for (size_t i = 0; i < L.size(); i++) if (L[i].id == id && L[i].state != 3) return (int)i; return -1; };
+    std::string c = "R:" + key_requests(*dns, idx_of, 0);
+    c += "|W:" + key_wheel(*dns, idx_of, 0);
+    c += "|u" + std::to_string((int)dns->udp_.sp_socket_ev_->isEnabled()) + "|id" + std::to_string(VF_GET(req_id_alloc_, *dns, 0u));
+    c += "|k" + std::to_string(VF_SIZE(dns_ip_vec_, *dns, (size_t)0)) + "/" + std::to_string(cur) + "|x" + std::to_string(g_tx_fail_mask);
+    bool anyp = false; for (auto &l : L) anyp = anyp || l.state == 0;
+    c += "|M:"; for (auto &l : L) { c += std::to_string(l.state) + std::to_string(l.calls) + (l.state == 0 ? std::to_string((int)l.failed[0]) + std::to_string((int)l.failed[1]) + std::to_string((int)l.failed[2]) + std::to_string(std::min(l.nfail, l.nq)) + std::to_string(l.age) + "q" + std::to_string(l.nq) + "s" + std::to_string(l.seen) : std::string("")) + "d" + std::to_string(l.dom) + (l.flavour && (l.calls == 0 && l.state != 1) ? (l.flavour == 1 ? "F" : l.flavour == 2 ? "X" : "E") : "") + ","; }    // a pending re-entrant-callback obligation is part of the state
+    if (anyp) c += "|n" + std::to_string(nobody);      // histories AFTER an ignored datagram are explored too: which class of ignored datagram came last is (model-only) state
+    if (vf_any_missing()) { c += "|H:"; for (size_t i = h.size() > 3 ? h.size() - 3 : 0; i < h.size(); i++) c += ex.show(h[i]) + ";"; }
     // destruction must not invoke anything
     std::vector<int> calls; for (auto &l : L) calls.push_back(l.calls);
-    delete dns; loop->runNext([] {}); loop->runLoop(event::Loop::Mode::kOnce); delete loop;
+    delete dns; g_tx_fail_mask = 0; loop->runNext([] {}); loop->runLoop(event::Loop::Mode::kOnce);
+    for (int k = 0; k < 6; k++) { g_mono_ms += 1000; loop->runNext([] {}); loop->runLoop(event::Loop::Mode::kOnce); }     // nothing of it may still be registered with the loop: a whole timeout period passes
+    delete loop;
     for (size_t i = 0; i < L.size(); i++) if (L[i].calls != calls[i]) fail("dns-lookup-callback-invoked-during-destruction");
     g_keep_sent = false;
     return c;
@@ -240,6 +285,7 @@ int main(int argc, char **argv) {
   if (g_wrongq_accepted) printf("@OUTCOME %s: reply whose question names another domain accepted as answer (tolerated: acceptability is not defined by the statement) n=%ld\n", en, g_wrongq_accepted);
   if (g_wrongq_ignored) printf("@OUTCOME %s: reply whose question names another domain ignored n=%ld\n", en, g_wrongq_ignored);
   if (via_socket) printf("@OUTCOME %s: datagram not received because the socket's read event was disabled (no lookup outstanding) n=%ld; readable events with zero-length datagram / recvfrom failure n=%ld\n", en, g_not_listening, g_rx_nothing);
+  if (lane) printf("@OUTCOME %s: lookups requested with an empty callback that completed silently (seen through isRunning) n=%ld\n", en, g_silent);
   if (lane) printf("@OUTCOME %s: follow-up lookups issued inside a callback n=%ld; pending lookups cancelled from inside another lookup's callback n=%ld\n", en, g_cb_followups, g_cb_cancels);
   if (cfg_lane) printf("@OUTCOME %s: request() with no server configured refused (id 0, nothing sent, no callback) n=%ld; server failure after the server list changed while pending: completed kAllDnsFail n=%ld / kept waiting n=%ld (both tolerated)\n", en, g_refused, g_srvchg_completed, g_srvchg_waiting);
   return 0;
